@@ -96,6 +96,7 @@ SpkLayouts == [
   B1 |-> Lay({"pl", "ph"}, {}, {"A1", "A2", "A3"}, {PR("p1", ""), PR("p2", "a")}),
   B2 |-> Lay({"pl", "ph"}, {}, {"A4", "A5"}, {PR("p1", "b"), PR("p2", "")}),
   B3 |-> Lay({"pl", "ph"}, {}, {"A1", "A9"}, {PR("p1", ""), PR("p2", "")}),
+  B4 |-> Lay({"pl", "ph"}, {}, {"A1"}, {PR("p1", ""), PR("p2", "a")}),
   BZ |-> Lay({"pz"}, {}, {"A6"}, {PR("p1", "")}),
   \* layer 2 and BGP
   C1 |-> Lay({"pw"}, {"X1"}, {"A7"}, {PR("p1", "")}),
@@ -202,22 +203,23 @@ L2Match(adv) == adv.all \/ adv.ifs \cap LocalIfs # {}
 (*  rcfg  NULL | CfgOf record (ConfigReconciler.currentConfig)              *)
 (*  seen  node |-> NULL | node value (c.nodes)                              *)
 (*  annB, annL  services announced per protocol (c.announced)               *)
-(*  ips   service |-> NULL | addresses (c.svcIPs)                           *)
+(*  ips   service |-> addresses, <<>> = none (c.svcIPs)                     *)
 (*  l2    service |-> set of [ip, all, ifs] (Announce.ips)                  *)
-(*  ads   service |-> NULL | set of AdRec (bgpController.svcAds)            *)
-(*  sess  peer name |-> NULL | set of routes (last Set of the live session) *)
+(*  ads   service |-> set of AdRec (bgpController.svcAds)                   *)
+(*  sess  peer name |-> Down | Up(routes last Set on the live session)      *)
 (*  act   service |-> set of peer names (bgpController.activeAds)           *)
+Down == [up |-> FALSE, rts |-> {}]
+Up(r) == [up |-> TRUE, rts |-> r]
 EmptyMem ==
   [cfg |-> NULL, rcfg |-> NULL, seen |-> [n \in SpkNodes |-> NULL], annB |-> {}, annL |-> {},
-   ips |-> [s \in SpkSvcs |-> NULL], l2 |-> [s \in SpkSvcs |-> {}], ads |-> [s \in SpkSvcs |-> NULL],
-   sess |-> [p \in PeerNames |-> NULL], act |-> [s \in SpkSvcs |-> {}]]
+   ips |-> [s \in SpkSvcs |-> <<>>], l2 |-> [s \in SpkSvcs |-> {}], ads |-> [s \in SpkSvcs |-> {}],
+   sess |-> [p \in PeerNames |-> Down], act |-> [s \in SpkSvcs |-> {}]]
 
-AllAds(ads) == UNION {IF ads[s] = NULL THEN {} ELSE ads[s] : s \in SpkSvcs}
+AllAds(ads) == UNION {ads[s] : s \in SpkSvcs}
 PeerSet(p, ads) == {RouteOf(ad) : ad \in {x \in AllAds(ads) : ToPeer(p, x)}}
-Publish(sess, ads) == [p \in PeerNames |-> IF sess[p] = NULL THEN NULL ELSE PeerSet(p, ads)]
+Publish(sess, ads) == [p \in PeerNames |-> IF sess[p].up THEN Up(PeerSet(p, ads)) ELSE Down]
 ActiveOf(sess, ads) ==
-  [s \in SpkSvcs |-> {p \in PeerNames : sess[p] # NULL /\ ads[s] # NULL /\
-                        \E r \in sess[p] : \E ad \in ads[s] : ad.pfx = r.pfx}]
+  [s \in SpkSvcs |-> {p \in PeerNames : sess[p].up /\ \E r \in sess[p].rts : \E ad \in ads[s] : ad.pfx = r.pfx}]
 (* updateAds = publishAds + notifyAdsChanged *)
 UpdateAds(m) == LET s2 == Publish(m.sess, m.ads) IN [m EXCEPT !.sess = s2, !.act = ActiveOf(s2, m.ads)]
 
@@ -225,8 +227,8 @@ UpdateAds(m) == LET s2 == Publish(m.sess, m.ads) IN [m EXCEPT !.sess = s2, !.act
 (* when a session was opened                                                *)
 SyncPeers(m, peers, me) ==
   LET run == {p.name : p \in {q \in peers : PeerShouldRun(q, me)}}
-      opened == {p \in run : m.sess[p] = NULL}
-      s1 == [p \in PeerNames |-> IF p \notin run THEN NULL ELSE IF m.sess[p] = NULL THEN {} ELSE m.sess[p]]
+      opened == {p \in run : ~m.sess[p].up}
+      s1 == [p \in PeerNames |-> IF p \notin run THEN Down ELSE IF m.sess[p].up THEN m.sess[p] ELSE Up({})]
       m1 == [m EXCEPT !.sess = s1]
   IN IF opened = {} THEN m1 ELSE UpdateAds(m1)
 
@@ -235,13 +237,13 @@ PeersOfCfg(c) == IF c = NULL THEN {} ELSE SpkLayouts[c.layout].peers
 (* deleteBalancerProtocol *)
 DelB(m, s) ==
   IF s \notin m.annB THEN m
-  ELSE LET m1 == IF m.ads[s] = NULL THEN m ELSE UpdateAds([m EXCEPT !.ads[s] = NULL])
+  ELSE LET m1 == UpdateAds([m EXCEPT !.ads[s] = {}])
            m2 == [m1 EXCEPT !.annB = @ \ {s}]
-       IN IF s \in m2.annL THEN m2 ELSE [m2 EXCEPT !.ips[s] = NULL]
+       IN IF s \in m2.annL THEN m2 ELSE [m2 EXCEPT !.ips[s] = <<>>]
 DelL(m, s) ==
   IF s \notin m.annL THEN m
   ELSE LET m2 == [m EXCEPT !.l2[s] = {}, !.annL = @ \ {s}]
-       IN IF s \in m2.annB THEN m2 ELSE [m2 EXCEPT !.ips[s] = NULL]
+       IN IF s \in m2.annB THEN m2 ELSE [m2 EXCEPT !.ips[s] = <<>>]
 DelAll(m, s) == DelL(DelB(m, s), s)
 
 (* layer2Controller.SetBalancer: addresses whose advertisement matches no   *)
@@ -271,18 +273,18 @@ SetBalancer(m, env, s, v) ==
   ELSE LET ld == Loaded(m.cfg)
            pool == PoolOf(ld, v.ips)
        IN IF pool = "" THEN DelAll(m, s)
-          ELSE LET m0 == IF m.ips[s] # NULL /\ ~SameIPs(v.ips, m.ips[s]) THEN DelAll(m, s) ELSE m
+          ELSE LET m0 == IF m.ips[s] # <<>> /\ ~SameIPs(v.ips, m.ips[s]) THEN DelAll(m, s) ELSE m
                    m1 == IF BGPShould(ld, m0.seen, pool, v) THEN SetB(m0, ld, pool, s, v) ELSE DelB(m0, s)
                IN IF L2Should(ld, m1.seen, env.members, env.ml, pool, v, env.rank)
                   THEN SetL(m1, ld, pool, s, v) ELSE DelL(m1, s)
 
 (* controller.SetConfig: refused when an announced address has no pool      *)
-CfgRefused(m, c) == \E s \in SpkSvcs : m.ips[s] # NULL /\ PoolOf(Loaded(c), m.ips[s]) = ""
+CfgRefused(m, c) == \E s \in SpkSvcs : m.ips[s] # <<>> /\ PoolOf(Loaded(c), m.ips[s]) = ""
 SetConfig(m, c) ==
   LET old == PeersOfCfg(m.cfg)
       new == SpkLayouts[c.layout].peers
       kept == {p.name : p \in old \cap new}
-      s1 == [p \in PeerNames |-> IF p \in kept THEN m.sess[p] ELSE NULL]
+      s1 == [p \in PeerNames |-> IF p \in kept THEN m.sess[p] ELSE Down]
   IN [SyncPeers([m EXCEPT !.sess = s1], new, m.seen[Me]) EXCEPT !.cfg = c]
 
 (* controller.SetNode; returns [m, reprocess]                               *)
